@@ -372,15 +372,18 @@ pub fn builtin_binary_shift<E: Effect>(
                     let bytes = binary_data.to_vec();
 
                     let shift_left = shift_amount > 0;
-                    let shift_bits = shift_amount.unsigned_abs() as u32;
+                    // Compare at full width first: truncating the count to `u32` would turn a
+                    // shift by 2^32 into a shift by 0.
+                    let shift_bits = shift_amount.unsigned_abs();
 
-                    if shift_bits >= (bytes.len() as u32 * 8) {
+                    if shift_bits >= (bytes.len() as u64 * 8) {
                         // Shift larger than total bits results in zeros
                         let result = vec![0u8; bytes.len()];
                         let binary = executor.allocate_binary(result)?;
                         return Ok(BuiltinResult::Value(Value::Binary(binary)));
                     }
 
+                    let shift_bits = shift_bits as u32;
                     let mut result = vec![0u8; bytes.len()];
                     let byte_shift = (shift_bits / 8) as usize;
                     let bit_shift = shift_bits % 8;
